@@ -29,7 +29,9 @@ def strip_comments(text):
 
 def grep_forbidden():
     hits = []
-    for f in files_under(COQ, (".v",)) + [os.path.join(VERIF, "ocaml", "Extract.v")]:
+    proj = os.path.join(COQ, "_CoqProject")
+    listed = [os.path.join(COQ, l.strip()) for l in open(proj) if l.strip().endswith(".v")]
+    for f in listed + [os.path.join(VERIF, "ocaml", "Extract.v")]:
         body = strip_comments(open(f).read())
         # Section variables / hypotheses are allowed only inside a Section
         in_section = 0
